@@ -146,6 +146,7 @@ func c13Worker(mode string, seed int64, n int) {
 		results := make([][]string, 8)
 		var wg sync.WaitGroup
 		shared := GenModel(rand.New(rand.NewSource(seed)), GenOpts{DSLValid: true, Conds: true, Modular: true, MaxDepth: 3}).Proto()
+		sharedWBuilder = graph.NewWeightedAuthorizationModelGraphBuilder() // one builder for all goroutines
 		for g := 0; g < 8; g++ {
 			wg.Add(1)
 			go func(g int) {
@@ -158,7 +159,7 @@ func c13Worker(mode string, seed int64, n int) {
 					// one shared read-only model used by every goroutine
 					_, _ = transformer.TransformJSONProtoToDSL(shared)
 					_, _ = graph.NewAuthorizationModelGraph(shared)
-					_, _ = graph.NewWeightedAuthorizationModelGraphBuilder().Build(shared)
+					_, _ = sharedWBuilder.Build(shared)
 				}
 				results[g] = res
 			}(g)
@@ -192,7 +193,7 @@ func init() {
 	props["C13"] = func(c *Ctx) {
 		c.R.Rule = "one operation list (DSL parse + JSON, print with/without source info on modular models, module merge, plain graph + DOT + reversal, weighted graph, validators) derived from the seed is executed " +
 			"(1) sequentially in this process with the arguments compared before/after each call (proto.Equal and order-sensitive canonical form: inputs untouched), (2) in a fresh child process (cold ANTLR caches), " +
-			"(3) in a child process warmed by 600 unrelated and mutated inputs, (4) from 8 goroutines in a child built with -race, each goroutine also printing and building graphs from one shared read-only model; " +
+			"(3) in a child process warmed by 600 unrelated and mutated inputs, (4) from 8 goroutines in a child built with -race that share ONE weighted-graph builder instance, each goroutine also printing and building graphs from one shared read-only model; " +
 			"oracles: every regime gives the same result for every operation, no frame violation, no race report; correspondence of the sequential results with the Lean ports. " +
 			"non-trivial = distinct operation whose result was compared in all regimes"
 		n := c.Pick(300, 3000)
